@@ -115,13 +115,13 @@ Lemma exec_stab : forall call_next, Stab call_next -> forall acts self k pc w,
 Proof.
   intros call_next H. induction acts as [| a rest IH]; intros self k pc w AA Hw; simpl; [exact Hw |].
   assert (AR : acts_allowed rest) by (intros c catch I; eapply AA; right; exact I).
-  destruct a as [v | | | v | v | c catch | c | c | v]; simpl; try exact Hw.
+  destruct a as [v | | | v | v | c catch | c | c | v | | rr vv]; simpl; try exact Hw.
   - destruct k; simpl; [exact Hw | apply IH; assumption].
   - assert (Ac : allowed c = true) by (eapply AA; left; reflexivity).
     pose proof (do_call_stab call_next H c w Ac Hw) as H1.
     destruct (do_call cfg call_next c w) as [w1 o]. simpl in H1.
     destruct o as [u | e]; [apply IH; [exact AR | eapply holds_same_rts; [| exact H1]; reflexivity] |].
-    destruct catch; [apply IH; [exact AR | eapply holds_same_rts; [| exact H1]; reflexivity] | exact H1].
+    destruct (catch && catchable e); [apply IH; [exact AR | eapply holds_same_rts; [| exact H1]; reflexivity] | exact H1].
   - destruct k; [| apply IH; assumption].
     unfold do_wait. destruct (nth_error (cells w) c) as [cx |]; [| exact Hw].
     destruct (cur w) as [[| t] |]; try exact Hw.
@@ -131,6 +131,9 @@ Proof.
     + destruct (cell_test cx); exact Hw.
   - apply IH; [exact AR |]. destruct (nth_error (cells w) c); [eapply holds_same_rts; [| exact Hw]; reflexivity | exact Hw].
   - apply IH; [exact AR |]. unfold log_self. destruct (nth_error (rts w) self); [eapply holds_same_rts; [| exact Hw]; reflexivity | exact Hw].
+  - destruct k; [| apply IH; assumption].
+    pose proof (H rr vv w Hw) as H1. destruct (call_next rr vv w) as [w1 o]. simpl in H1.
+    destruct o; exact H1.
 Qed.
 
 Hypothesis scripts_allowed : forall i d, nth_error defs i = Some d -> acts_allowed (d_script d).
